@@ -127,6 +127,9 @@ func c03Same(fam, what string, herr, cerr error, stream bool) {
 
 func c03(tier string) []*explore.Scenario {
 	var out []*explore.Scenario
+	for _, k := range []string{"Bidi", "CStream", "SStream"} {
+		out = append(out, c03ServerReset(k, 1))
+	}
 	for _, kind := range []string{"Unary", "Bidi", "SStream", "CStream"} {
 		out = append(out, c03Shapes(kind, tier == "thorough"))
 	}
@@ -242,6 +245,46 @@ func c03Early(n, k, capn int, cprog string, bound int) *explore.Scenario {
 }
 
 // c03Foreign: replies produced by a foreign (scripted) peer.
+// c03ServerReset: the real server resets a stream of the real client (the
+// opening envelope is lost in transit, so the first thing the server sees for
+// the id is a message): the caller must see a failure, never a clean end.
+func c03ServerReset(kind string, bound int) *explore.Scenario {
+	fam := "C03/server-reset"
+	return &explore.Scenario{
+		Name: "C03/server-reset/lost-open/" + kind, Family: fam, Prop: "C03", Bound: bound,
+		Run: func() {
+			w := env.NewWorld()
+			d := env.NewDirect(w, env.DirectOpts{Pipe: env.PipeOpts{Cap: 64}})
+			vsched.Settle()
+			d.Pipe.A.DropWriteAt = d.Pipe.A.NWritten // the next envelope the client writes: the open
+			vsched.Explore(true)
+			r := w.Rec("s", kind)
+			vsched.GoNamed("caller-s", func() {
+				cs := w.Open(d.CC, context.Background(), r)
+				if cs != nil {
+					env.CSend(r, cs, "m0")
+					env.CRecvAll(r, cs)
+				}
+				r.CDone = true
+			})
+			vsched.Quiesce()
+			vsched.Obs("%s", r.Summary())
+			if !r.CDone {
+				vsched.Fail(fam+"|hang", "the caller of a stream the server reset never got a result: %s", r.Summary())
+			} else if r.CErr == nil || r.CErr == io.EOF || status.Code(r.CErr) == codes.OK {
+				vsched.Fail(fam+"|reset-as-success", "the server reset the stream (it never saw its open) but the caller saw %s", env.ErrStr(r.CErr))
+			}
+			if r.HStarts != 0 {
+				vsched.Fail(fam+"|handler-ran", "a handler ran for a stream whose open was lost")
+			}
+			p := w.Rec("probe", "Unary")
+			w.CallUnary(d.CC, context.Background(), p, "x")
+			checkUnary(p, "x", fam)
+			finishDirect(d, w, false)
+		},
+	}
+}
+
 func c03Foreign() *explore.Scenario {
 	fam := "C03/foreign"
 	return &explore.Scenario{
